@@ -159,7 +159,7 @@ PROPS = {
                               "mergeExisting_diverged", "mergeExisting_nothing_iff", "merge_unreadable_remote", "merge_invalid_entity",
                               "merge_new", "merge_existing", "merge_commit_dominates_remote", "merge_frame", "merge_clock_monotone",
                               "gen_merge_comparisons", "mergeExisting_keeps_local", "mergeExisting_gets_remote", "mergeDiverged_reaches", "read_iff_readable", "read_packs_complete", "merge_readable", "pull_keeps_readable"],
-        "slices": ["C02", "C09"],
+        "slices": ["C02", "C09", "C02cache"],
         "rule": "same replica schedules as C01; every pull (Fetch + MergeAll) is one case: the decoded commits reachable from all local and "
                 "remote-tracking heads, the (local, remote) head pairs in ListRefs order, the clocks; compared: per-entity status, new head, "
                 "merge commit parents and edit time, ids of the operations of the entity handed back, clocks after; oracle: every bug "
